@@ -344,8 +344,8 @@ def run(ctx):
             rec.case("robust_ref", None, count=0, cls="matched_a_fallback_outcome")
         rec.case("robust_ref", case, nontrivial=why is None, cls=["wcvp_r" if "p" in case else "wcv_r", "gap:" + case["gcls"], "y:" + case["ycls"]])
 
-    ctx.given("robust_ref", st.one_of(gcase(ctx.n(100, 200), classes=["seasonal", "walk", "iid", "step", "seasonal"]), spike_case(), spike_case(simple=True)),
-              ctx.n(900, 12000), fn=f_rob)
+    ctx.given("robust_ref", st.one_of(gcase(ctx.n(100, 200), classes=["seasonal", "walk", "iid", "step", "seasonal"]), spike_case(), spike_case(simple=True),
+                                      spike_case(simple=True)), ctx.n(1200, 14000), fn=f_rob)
 
     def f_deg(case):
         rec.case("robust_degenerate", case, nontrivial=True, cls=["family:" + case["family"], "gap:" + case["gcls"], "p" if "p" in case else "nop"])
@@ -373,4 +373,4 @@ def run(ctx):
                                                          "p" if "p" in case else "nop"])
         sub_accessor(case)
 
-    ctx.given("accessor", acc_case(), ctx.n(120, 1500), fn=f_acc)
+    ctx.given("accessor", acc_case(), ctx.n(300, 3000), fn=f_acc)
